@@ -421,6 +421,11 @@ class Reporter:
         self.violations.append((signature, path, summary))
         return True
 
+    def note(self, what):
+        """something the run could not do (recorded in the evidence; neither a violation nor a drift)"""
+        log("NOTE: " + what)
+        self.assumptions.append("NOTE: " + what)
+
     def note_drift(self, what):
         print("DRIFT property=%s %s" % (self.pid, what), flush=True)
         self.drift.append(what)
